@@ -16,6 +16,61 @@ var AllSourceConsts = []string{"RFC3279", "RFC5280", "RFC5480", "RFC5891", "RFC6
 
 var regexDict = []string{`^e_`, `^w_`, `^n_`, `crl`, `.*`, `^$`, `ocsp`, `^e_(sub|ext)_`, `dnsname`, `[0-9]`, `_ca_`, `^e_.*_(san|ian)_`, `rsa`, `smime|cs_`, `^.{10,25}$`, `a{3}`, `\bext\b`, `(?i)RSA`, `^[ew]_ext`, `x`}
 
+// DrawRegexp draws a name pattern: half from the dictionary, half from a small
+// grammar over fragments of real lint names - a literal fragment (a whole name, a
+// word between underscores, an arbitrary substring), optionally quoted, wrapped in
+// text anchors (^ $ \A \z), word boundaries, a case-insensitive flag, a group, an
+// alternation of two fragments, or followed by a quantified class. Go's regexp
+// package is the specification of what "matches" means.
+func DrawRegexp(t *rapid.T, names []string) string {
+	if len(names) == 0 || rapid.Bool().Draw(t, "redict") {
+		return regexDict[rapid.IntRange(0, len(regexDict)-1).Draw(t, "re")]
+	}
+	frag := func(lbl string) string {
+		n := names[rapid.IntRange(0, len(names)-1).Draw(t, lbl+"name")]
+		switch rapid.IntRange(0, 3).Draw(t, lbl+"kind") {
+		case 0:
+			return n
+		case 1:
+			w := strings.Split(n, "_")
+			i := rapid.IntRange(0, len(w)-1).Draw(t, lbl+"w")
+			j := rapid.IntRange(i, min(len(w)-1, i+2)).Draw(t, lbl+"w2")
+			return strings.Join(w[i:j+1], "_")
+		default:
+			i := rapid.IntRange(0, len(n)-1).Draw(t, lbl+"i")
+			j := rapid.IntRange(i+1, min(len(n), i+12)).Draw(t, lbl+"j")
+			return n[i:j]
+		}
+	}
+	quote := func(s string) string { return strings.NewReplacer(".", `\.`, "-", `\-`).Replace(s) }
+	f := quote(frag("a"))
+	switch rapid.IntRange(0, 11).Draw(t, "reshape") {
+	case 0:
+		return "^" + f + "$"
+	case 1:
+		return `\A` + f + `\z`
+	case 2:
+		return "^" + f
+	case 3:
+		return f + "$"
+	case 4:
+		return `\b` + f + `\b`
+	case 5:
+		return "(?i)" + strings.ToUpper(f)
+	case 6:
+		return "(?i)^" + strings.ToUpper(f) + "$"
+	case 7:
+		return "^(" + f + ")$"
+	case 8:
+		return "^(" + f + "|" + quote(frag("b")) + ")$"
+	case 9:
+		return f + "[a-z_]{0,6}$"
+	case 10:
+		return "^(?:" + f + ")"
+	}
+	return f
+}
+
 var pads = []string{"", " ", "  ", "\t", "\n", " \t"}
 
 func pad(t *rapid.T, s string) string {
@@ -58,7 +113,7 @@ func DrawValidFilter(t *rapid.T, names []string) FilterSpec {
 	case 5:
 		f.ExcludeSources = drawSources("xsrc")
 	case 6:
-		s := regexDict[rapid.IntRange(0, len(regexDict)-1).Draw(t, "re")]
+		s := DrawRegexp(t, names)
 		f.NameFilter = &s
 		if rapid.Bool().Draw(t, "resrc") {
 			f.IncludeSources = drawSources("isrc")
